@@ -250,11 +250,42 @@ fn oneshot_one<H: HK>(rep: &mut Report, total: usize) {
     rep.set("streamed", arr);
 }
 
+/// a single update() call carrying `total` zero bytes (4 GiB and more: lazily mapped zero pages) against
+/// the same bytes fed in 1 MiB pieces - differential, no model: per-call arithmetic in 32 bits shows here
+fn huge_single_call<H: HK>(rep: &mut Report, total: usize) {
+    let t0 = std::time::Instant::now();
+    let r = guarded(|| {
+        let data = vec![0u8; total];
+        let mut a = H::D::new();
+        a.update(&data);
+        let one = a.finalize().to_vec();
+        let mut b = H::D::new();
+        for c in data.chunks(1 << 20) {
+            b.update(c);
+        }
+        (one, b.finalize().to_vec())
+    });
+    rep.evaluations += 1;
+    rep.nontrivial += 1;
+    let replay = json!({"engine":"stream","check":"C17","hasher":H::NAME,"prefix_bytes":total,"single_update_call":true,"differential":"one call vs 1 MiB pieces"});
+    match r {
+        Err(p) => rep.violation(&format!("c17:{}:huge-single-call:panic:{}", H::NAME, panic_class(&p)), format!("one update() call with {} bytes panicked: {}", total, p), replay),
+        Ok((one, pieces)) => {
+            if one != pieces {
+                rep.violation(&format!("c17:{}:huge-single-call:differs-from-pieces", H::NAME), format!("one update() call with {} bytes gives a different digest than the same bytes in 1 MiB pieces", total), replay);
+            }
+        }
+    }
+    let mut arr = rep.extra.get("streamed").cloned().unwrap_or(json!([]));
+    arr.as_array_mut().unwrap().push(json!({"hasher": H::NAME, "single_update_call_bytes": total, "oracle": "same bytes in 1 MiB pieces", "wall_s": t0.elapsed().as_secs_f64()}));
+    rep.set("streamed", arr);
+}
+
 pub fn run(tier: &str, config: &str) -> Report {
     let mut rep = Report::new("C17", tier, config);
     let th = tier == "thorough";
     let depth = if th { 4 } else { 3 };
-    rep.rule = format!("hook H2: for every hasher and every counter boundary (BLAKE-224/256 bits 2^32,2^33,2^48,2^63,2^64; BLAKE-384/512 bits 2^32,2^63,2^64,2^65,2^96,2^127,2^128-1; Groestl blocks 2^8,2^16,2^24,2^32,2^40,2^63,2^64; JH bytes 2^29,2^32,2^40,2^56,2^61; Skein bytes 2^32,2^40,2^63,2^64) implementation and reference are set to the same counter value boundary - k blocks (k = 0..4) on the initial chaining value, then every history of <= {} operations (update(l), l in {{0,1,B-1,B,B+1,2B}}, reset, finalize_fixed_reset) + finalize that stays inside the format limit is executed on both; distinct_nontrivial = histories that actually cross a boundary. Real streaming (no hook): Groestl through 2^8 and 2^16 blocks{}.", depth - 1, if th { ", BLAKE-224/256 and JH through 2^32 bits (512 MiB, in 64 KiB pieces and, for BLAKE-224/256, also in ONE update call), Skein-512 through 2^32 bytes" } else { " (512 MiB / 4 GiB streams in the thorough tier)" });
+    rep.rule = format!("hook H2: for every hasher and every counter boundary (BLAKE-224/256 bits 2^32,2^33,2^48,2^63,2^64; BLAKE-384/512 bits 2^32,2^63,2^64,2^65,2^96,2^127,2^128-1; Groestl blocks 2^8,2^16,2^24,2^32,2^40,2^63,2^64; JH bytes 2^29,2^32,2^40,2^56,2^61; Skein bytes 2^32,2^40,2^63,2^64) implementation and reference are set to the same counter value boundary - k blocks (k = 0..4) on the initial chaining value, then every history of <= {} operations (update(l), l in {{0,1,B-1,B,B+1,2B}}, reset, finalize_fixed_reset) + finalize that stays inside the format limit is executed on both; distinct_nontrivial = histories that actually cross a boundary. Real streaming (no hook): Groestl through 2^8 and 2^16 blocks{}.", depth - 1, if th { ", BLAKE-224/256 and JH through 2^32 bits (512 MiB, in 64 KiB pieces and, for BLAKE-224/256, also in ONE update call), Skein-512 through 2^32 bytes; one update() call of 4 GiB + 200 zero bytes vs the same bytes in 1 MiB pieces for Groestl-256/512, BLAKE-512, Skein-512, JH-256" } else { " (512 MiB / 4 GiB streams in the thorough tier)" });
     macro_rules! go { ($k:ty) => { if crate::guts::HOOKS { run_one::<$k>(&mut rep, depth); } }; }
     if !crate::guts::HOOKS {
         rep.assumptions.push("hook H2 is not compiled in (the hook code no longer builds against this tree): only the real-streaming part of C17 ran".into());
@@ -281,6 +312,13 @@ pub fn run(tier: &str, config: &str) -> Report {
         // the same boundary crossed inside ONE update() call
         oneshot_one::<KBlake256>(&mut rep, (1 << 29) + 200);
         oneshot_one::<KBlake224>(&mut rep, (1 << 29) + 64);
+        // one call of more than 4 GiB (slice lengths beyond 32 bits), once per family and state width
+        let huge = (1usize << 32) + 200;
+        huge_single_call::<KGroestl256>(&mut rep, huge);
+        huge_single_call::<KGroestl512>(&mut rep, huge);
+        huge_single_call::<KBlake512>(&mut rep, huge);
+        huge_single_call::<KSkein512_64>(&mut rep, huge);
+        huge_single_call::<KJh256>(&mut rep, huge);
     }
     let tr = rep.extra.get("transitions").and_then(|v| v.as_u64()).unwrap_or(0);
     rep.set("traces_validated_against_impl", json!(rep.evaluations));
